@@ -93,6 +93,15 @@ def run_array(env, res, case, want_readme=False, census=False):
                     k = rng.randrange(n)
                     D.truncate_array(path, k)
                     model = model[:k].copy()
+                elif step == 'x:trunc2':        # by path, takes away exactly what 'h:app2' added
+                    if n < 2:
+                        continue
+                    D.truncate_array(path, n - 2)
+                    model = model[:n - 2].copy()
+                elif step == 'h:app2':
+                    rows = _rows(rng, model.dtype, model.shape[1:], 2, 2)
+                    h.append(rows)
+                    model = np.concatenate([model, rows]).astype(model.dtype)
                 elif step == 'x:app':
                     rows = _rows(rng, model.dtype, model.shape[1:])
                     D.Array(path, accessmode='r+').append(rows)
@@ -184,7 +193,7 @@ def run_array(env, res, case, want_readme=False, census=False):
             res.count('mon.stale_steps')
             if step.startswith('x:'):
                 lastx = step
-            live = h if step in ('h:app', 'h:iterapp', 'h:trunc') else None
+            live = h if step in ('h:app', 'h:app2', 'h:iterapp', 'h:trunc') else None
             if not check_array_disk(res, D, path, None, model, want=('ifd', 'fresh'), mechprefix=tag):
                 return
             if live is not None:
